@@ -382,6 +382,7 @@ func C12Configs(thorough bool) []*world.Config {
 		cc(world.UintCfg(2, urange(1, 4), 1, M, "none")),
 		world.LKeyCfg(2, []uint8{0, 2, 0, 1, 0}, 1, B, "none"),
 		world.StructCfg(2, []uint8{0, 1, 0, 2}, B, "none"),
+		world.IntCfg(2, []int{1, 2, 3, 4}, []interface{}{[]int{1}, []int{2, 3}}, []int{}, M, "none"),
 	}
 	if thorough {
 		cs = append(cs, world.UintCfg(2, urange(1, 6), 1, B, "none"), world.UintCfg(2, urange(0, 8), 1, M, "none"), world.UintCfg(3, ulist(1, 2, 3, 4, 6, 9), 1, B, "none"),
